@@ -3866,6 +3866,16 @@ func restoreFlag(m map[string]bool, name string, had bool) {
 // scopeSet records that a name is being bound in the current scope, saving
 // any previous binding for restoration by popScope.
 func (l *Lowerer) scopeSet(name string) {
+	// An abstract const whose deferred initializer mentions the name being
+	// (re)bound must no longer be re-lowered at its use sites: the name would
+	// resolve to the new binding there. From here on (until the scope ends) its
+	// uses take the expression that was lowered at the declaration.
+	for constName, ast := range l.localAbstractASTs {
+		if constName != name && exprMentionsName(ast, name) {
+			l.scopeSave(constName)
+			delete(l.localAbstractASTs, constName)
+		}
+	}
 	l.scopeSave(name)
 	// The new binding replaces the old one completely: drop what the per-name
 	// side tables say about the shadowed binding (the caller sets the entries
@@ -3874,6 +3884,65 @@ func (l *Lowerer) scopeSet(name string) {
 	delete(l.localIsVar, name)
 	delete(l.localIsPtr, name)
 	delete(l.localAbstractASTs, name)
+}
+
+// exprMentionsName reports whether the identifier name occurs anywhere in the
+// expression (including array sizes of constructed types).
+func exprMentionsName(expr parser.Expr, name string) bool {
+	switch e := expr.(type) {
+	case *parser.Ident:
+		return e.Name == name
+	case *parser.BinaryExpr:
+		return exprMentionsName(e.Left, name) || exprMentionsName(e.Right, name)
+	case *parser.UnaryExpr:
+		return exprMentionsName(e.Operand, name)
+	case *parser.CallExpr:
+		if e.Func != nil && e.Func.Name == name {
+			return true
+		}
+		for _, a := range e.Args {
+			if exprMentionsName(a, name) {
+				return true
+			}
+		}
+	case *parser.ConstructExpr:
+		if typeMentionsName(e.Type, name) {
+			return true
+		}
+		for _, a := range e.Args {
+			if exprMentionsName(a, name) {
+				return true
+			}
+		}
+	case *parser.IndexExpr:
+		return exprMentionsName(e.Expr, name) || exprMentionsName(e.Index, name)
+	case *parser.MemberExpr:
+		return exprMentionsName(e.Expr, name)
+	case *parser.BitcastExpr:
+		return typeMentionsName(e.Type, name) || exprMentionsName(e.Expr, name)
+	}
+	return false
+}
+
+func typeMentionsName(t parser.Type, name string) bool {
+	switch ty := t.(type) {
+	case *parser.NamedType:
+		if ty.Name == name {
+			return true
+		}
+		for _, p := range ty.TypeParams {
+			if typeMentionsName(p, name) {
+				return true
+			}
+		}
+	case *parser.ArrayType:
+		return typeMentionsName(ty.Element, name) || (ty.Size != nil && exprMentionsName(ty.Size, name))
+	case *parser.BindingArrayType:
+		return typeMentionsName(ty.Element, name) || (ty.Size != nil && exprMentionsName(ty.Size, name))
+	case *parser.PtrType:
+		return typeMentionsName(ty.PointeeType, name)
+	}
+	return false
 }
 
 // scopeSave saves the current binding of name in the innermost scope frame.
@@ -5116,20 +5185,28 @@ func (l *Lowerer) lowerLocalConst(decl *parser.ConstDecl, target *[]ir.Statement
 	// store the init AST for deferred lowering at use site, matching Rust naga
 	// where abstract const expressions are created during declaration but removed
 	// by compact. The concrete expressions are created fresh when referenced.
-	if decl.IsConst && !hasExplicitType && !l.initHasConcreteType(decl.Init) {
-		l.scopeSet(decl.Name)
-		l.localAbstractASTs[decl.Name] = decl.Init
-		l.localConsts[decl.Name] = true
-
+	//
+	// The stored AST is re-lowered where the const is used, so every name in it
+	// is resolved at the use site. An initializer that mentions the const's own
+	// name (`const x = x + 1;` refers to an outer x: a declaration is in scope
+	// only after its statement) cannot be deferred and takes the regular path;
+	// later declarations that shadow a name the AST mentions end the deferral
+	// (see scopeSet).
+	if decl.IsConst && !hasExplicitType && !l.initHasConcreteType(decl.Init) && !exprMentionsName(decl.Init, decl.Name) {
 		// Still create the abstract expression to match Rust naga's pattern:
 		// Rust creates the expression during const declaration but it becomes dead
 		// after concretization at the use site. CompactExpressions removes it.
+		// It is lowered before the name is bound: the declaration is not in
+		// scope inside its own initializer.
 		emitStart := l.emitStartWithTarget(target)
 		initHandle, err := l.lowerExpression(decl.Init, target)
 		if err != nil {
 			return fmt.Errorf("const '%s' initializer: %w", decl.Name, err)
 		}
 		l.emitFinish(emitStart, target)
+		l.scopeSet(decl.Name)
+		l.localAbstractASTs[decl.Name] = decl.Init
+		l.localConsts[decl.Name] = true
 		// Store the handle but DON'T concretize — it stays abstract.
 		// The handle is NOT used for var init; a fresh handle is created at use site.
 		l.locals[decl.Name] = initHandle
